@@ -60,7 +60,8 @@ Ret(e) ==
   /\ e.rid \in ids /\ e.rid \notin returned
   /\ IF e.rid \notin DOMAIN script
      THEN /\ ~e.res.ok /\ e.res.err \notin {"PANIC", "HANG"}    \* gave up before any request reached the server: an error,
-          /\ e.timeout_ms >= 0 /\ e.timeout_ms <= 50             \* which only a (nearly) zero request timeout explains
+          /\ \/ (e.timeout_ms >= 0 /\ e.timeout_ms <= 50)       \* which only a (nearly) zero request timeout explains,
+             \/ (e.plan_stall /\ e.timeout_ms >= 0)              \* or a server that never answers (whether its thread logged the request before the client gave up is scheduling)
      ELSE
      LET s == script[e.rid] IN
      /\ e.res.ok = Good(s)
